@@ -53,18 +53,27 @@ BondSet(H, ppp, fr, i, k) == MinImage(H, VSub(fr.pos[Nb(fr, i, k)], fr.pos[i]), 
 BondTie(H, ppp, fr, i, k) == HasTie(H, VSub(fr.pos[Nb(fr, i, k)], fr.pos[i]), ppp)
 \* the unique minimum image off ties, computed per axis (Cell!MinImage enumerates the product of the per-axis sets;
 \* BondIsCellMinImage below states that both agree)
-ImageOf(H, v, ppp) ==
-  LET cs == CoefSets(H, v, ppp)
-      n  == [k \in 1..Len(v) |-> CHOOSE x \in cs[k] : \A y \in cs[k] : x <= y]
+\* (A = Adj(H) and d = Det(H) are passed in so that they are computed once per frame)
+ImageOfA(H, A, d, v, ppp) ==
+  LET raw == VecMat(v, A)
+      num == IF d < 0 THEN VNeg(raw) ELSE raw
+      n   == [k \in 1..Len(v) |-> IF ppp[k] = 1
+                                   THEN LET ns == NearestSet(num[k], Abs(d)) IN CHOOSE x \in ns : \A y \in ns : x <= y
+                                   ELSE 0]
   IN  VSub(v, VecMat(n, H))
+ImageOf(H, v, ppp) == ImageOfA(H, Adj(H), Det(H), v, ppp)
 Bond(H, ppp, fr, i, k)    == ImageOf(H, VSub(fr.pos[Nb(fr, i, k)], fr.pos[i]), ppp)
 \* all bonds of a frame, evaluated once: B[i][k]
 BondsOf(H, ppp, fr, nmax) ==
-  TLCEval([i \in 1..Len(fr.pos) |-> [k \in 1..Cn(fr, i, nmax) |-> Bond(H, ppp, fr, i, k)]])
+  LET A == TLCEval(Adj(H))
+      d == Det(H)
+  IN  TLCEval([i \in 1..Len(fr.pos) |->
+         TLCEval([k \in 1..Cn(fr, i, nmax) |-> TLCEval(ImageOfA(H, A, d, VSub(fr.pos[Nb(fr, i, k)], fr.pos[i]), ppp))])])
 FrameHasTie(H, ppp, fr, nmax) ==
   \E i \in 1..Len(fr.pos) : \E k \in 1..Cn(fr, i, nmax) : BondTie(H, ppp, fr, i, k)
 FrameHasZeroBond(H, ppp, fr, nmax) ==
-  \E i \in 1..Len(fr.pos) : \E k \in 1..Cn(fr, i, nmax) : Norm2(Bond(H, ppp, fr, i, k)) = 0
+  LET B == BondsOf(H, ppp, fr, nmax) IN
+  \E i \in 1..Len(fr.pos) : \E k \in 1..Cn(fr, i, nmax) : Norm2(B[i][k]) = 0
 BondIsCellMinImage(H, ppp, fr, nmax) ==
   \A i \in 1..Len(fr.pos) : \A k \in 1..Cn(fr, i, nmax) :
     /\ Bond(H, ppp, fr, i, k) \in BondSet(H, ppp, fr, i, k)
@@ -208,10 +217,10 @@ AMatrix(H, ppp, fr, l, nmax) ==
   LET N == Len(fr.pos)
       B == BondsOf(H, ppp, fr, nmax)
       T == LegTabOf(l, UNION {Cos2SetIJ(B, i, j) : i \in 1..N, j \in 1..N})
-  IN  TLCEval([i \in 1..N |-> [j \in 1..N |-> AFrom(B, T, fr, i, j, nmax)]])
+  IN  TLCEval([i \in 1..N |-> TLCEval([j \in 1..N |-> AFrom(B, T, fr, i, j, nmax)])])
 AQMatrix(AM, fr, nmax) ==
   LET N == Len(fr.pos) IN
-  TLCEval([i \in 1..N |-> [j \in 1..N |-> AQFrom(AM, fr, i, j, nmax)]])
+  TLCEval([i \in 1..N |-> TLCEval([j \in 1..N |-> AQFrom(AM, fr, i, j, nmax)])])
 
 \* --- comparisons of products of natural numbers beyond 32 bits: little-endian digit sequences, base 10^4
 BgBase == 10000
